@@ -53,6 +53,7 @@ def run_check(prop, tier, repo=None, write=True, out=print):
 
 
 def main(argv=None):
+    sys.setrecursionlimit(12000)
     ap = argparse.ArgumentParser(prog='sa')
     sub = ap.add_subparsers(dest='cmd', required=True)
     c = sub.add_parser('check')
